@@ -149,10 +149,13 @@ func targetsFromGroup(tg *targetgroup.Group, cfg *config.ScrapeConfig) ([]*SDTar
 		if lbls != nil || origLabels != nil {
 			tar := scrape.NewTarget(lbls, origLabels, cfg.Params)
 			hash := targetHash(lbls, tar.URL().String())
-			if exists[hash] {
-				continue
+			// only targets that are scraped are told apart by labels and URL; a dropped one has neither
+			if len(lbls) > 0 {
+				if exists[hash] {
+					continue
+				}
+				exists[hash] = true
 			}
-			exists[hash] = true
 			targets = append(targets, &SDTargets{
 				Job:        cfg.JobName,
 				PromTarget: tar,
